@@ -106,11 +106,39 @@ def run(prog, chk):
             for r in walk_no_defs(f.node):
                 if isinstance(r, ast.Return):
                     auth += dict_values_as_methods(prog, r.value, cn)
-    g2 = prog.cls("GssapiWithMicAuthHandler")
-    for s in g2.node.body:
-        if isinstance(s, ast.Assign) and isinstance(s.value, ast.Dict) and "handler_table" in unparse(s.targets[0]):
-            auth += dict_values_as_methods(prog, s.value, "GssapiWithMicAuthHandler")
+    from ._shared import gss_handler_table
+    gss = gss_handler_table(prog)
+    auth += [q for (q, kind, txt) in gss]
     tables["handler"] = sorted(set(auth))
+    # ---- R5 the dispatch site and the table values agree on the calling convention --------------------------------
+    # run() calls `handler(m)` / `self._handler_table[ptype](m)` with one argument and the channel table with
+    # (chan, m): a table of bound methods needs targets with that many parameters besides self; a table of plain
+    # functions taken from a class body needs the receiver passed explicitly, else the call is a TypeError.
+    call_args = {}
+    for c in walk_no_defs(run_f.node):
+        if isinstance(c, ast.Call) and unparse(c.func) in ("handler", "self._handler_table[ptype]", "self._channel_handler_table[ptype]"):
+            call_args[unparse(c.func)] = len(c.args)
+    if set(call_args) != {"handler", "self._handler_table[ptype]", "self._channel_handler_table[ptype]"}:
+        raise AnalysisError("Transport.run", "dispatch call sites not recognised: %s" % sorted(call_args))
+    conv = []
+    for q in tables.get("self._handler_table[ptype]", []):
+        conv.append((q, "bound", call_args["self._handler_table[ptype]"], "Transport._handler_table"))
+    for q in tables["self._channel_handler_table[ptype]"]:
+        conv.append((q, "unbound", call_args["self._channel_handler_table[ptype]"], "Transport._channel_handler_table"))
+    for q in sorted(set(auth) - set(x[0] for x in gss)):
+        conv.append((q, "bound", call_args["handler"], "AuthHandler handler tables"))
+    for (q, kind, txt) in gss:
+        conv.append((q, kind, call_args["handler"], "GssapiWithMicAuthHandler table"))
+    for (q, kind, nargs, table) in conv:
+        f_ = cg.funcs.get(q)
+        if f_ is None:
+            continue
+        npar = len(f_.params())
+        want = nargs + 1 if kind == "bound" else nargs
+        chk.ob("R5.dispatch-calling-convention", "%s:%s" % (table, q), npar == want, f_.loc,
+               "%s is stored %s and called with %d argument(s); it takes %d parameter(s)%s" % (
+                   q, "as a bound method" if kind == "bound" else "as a plain function (no receiver bound)", nargs, npar,
+                   "" if npar == want else " - TypeError on the transport thread for every such message"))
     for k, v in tables.items():
         chk.count("dispatch targets via %s" % k, len(v))
     chk.floor("R2", "handlers in Transport._handler_table", len(tables.get("self._handler_table[ptype]", [])), 8)
